@@ -41,6 +41,16 @@ CHECKS['C13'] = dict(cat='model_checking', tech='TLA+ option iterator/encoder ma
 CHECKS['C09'] = dict(cat='model_checking', tech='RFC 1071 accumulator machine in TLA+: TLC over all chunkings + per-step trace validation of the 32/64-bit registers and all protocol checksum functions',
    text="spec/Checksum.tla is the RFC 1071 accumulator as a machine on 16-bit quantities plus the RFC pseudo-header compositions. TLC explores every chunking (add_2/4/8bytes, slices cut at even offsets, odd tail last) of every byte string over a small alphabet and checks SplitIndependence (running sum = Fold1071 of everything added so far) and RFC known-answer vectors. Binding: each chunking is replayed into Sum16BitWords, u32_16bit_word and u64_16bit_word and the folded value is validated after EVERY add call; directed saturation cases force end-around carries of the 32/64-bit registers themselves; all lengths 0..70 with random chunkings; every calc_checksum*/with_*_checksum/update_checksum*/is_checksum_valid/calc_header_checksum variant of UDP, TCP (header, header slice, slice), ICMPv4, ICMPv6, IGMP and IPv4 over v4/v6 is recomputed by Trace_Checksum from header bytes, payload and addresses (UDP never 0).",
    note="This is numeric code: TLC exhausts the 16-bit machine only; the 64-bit implementation is bound by per-step validation on directed and seeded inputs (testing against a formal oracle). Little-endian host. Checksums filled in by the PacketBuilder are validated by the C10 check.")
+WIRE_NOTE = "Byte-exact TLA+ encoders/decoders exist for 14 header kinds (Ethernet II, Linux SLL, VLAN, MACsec, ARP, IPv4+options, AH, IPv6, UDP, TCP+options, fragment, raw extension, ICMPv6 raw form); typed ICMP/IGMP/NDP values are handled by the C17 check. The oracle is an executable specification enumerated systematically within stated bounds (star design), not an exhaustive exploration of the value space."
+CHECKS['C08'] = dict(cat='model_checking', tech='byte-exact TLA+ codecs (Wire.tla): TLC checks RoundTrip/LenAnnounced/Normalises, every value replayed through all serialisers and decoders',
+   text="spec/Wire.tla holds Enc/Dec per header kind. TLC checks on the spec RoundTrip (Dec(Enc(v)) = v), LenAnnounced and Normalises (bytes with reserved bits set decode to the same value and re-encode with exactly those bits cleared) over a star design: all-zero and all-ones base values, every field swept over its boundary set against both, variable parts at every length class. Every value is built through the public constructors, serialised by to_bytes, write (write_raw for IPv4, write compared modulo the recomputed checksum) and write_to_slice where it exists; Trace_Wire demands bytes = Enc(v) byte for byte, header_len = length, from_slice / from_bytes / read return the value with an empty remainder and consume exactly the header; accepted byte strings with reserved bits are decoded, re-encoded and decoded again.",
+   note=WIRE_NOTE)
+CHECKS['C14'] = dict(cat='model_checking', tech='table-driven setter machine in TLA+ (Fields.tla) + replay of every api x context x boundary value',
+   text="spec/Fields.tla derives, from the wire field widths, for every length-taking API the set of accepted values, the encoded result and the admissible error triples. TLC checks AcceptIffFits and Monotone over all cases and emits them: 20 APIs (IPv4/IPv6/IpHeaders payload length, UDP constructors and checksum functions, TCP checksum, MACsec short length, AH ICV, extension payload, IPv4 options, ARP address sizes) x header contexts (options / extension lengths) x values {0, 1, L-2..L+2, 2^16-2..2^16+2, far beyond}. Each case is executed on the real API; Trace_Fields compares verdict, error fields (offending and allowed value), unchanged-on-error and the value decoded from the encoded bytes.",
+   note="32-bit pseudo-header limits are only probed below the limit (no 4 GiB payloads). Builder payload limits belong to the C10 check.")
+CHECKS['C15'] = dict(cat='model_checking', tech='complete newtype domains (Fields.tla) + byte-exact encoders swept per field (Wire.tla)',
+   text="Two parts. (1) Fields.tla: the complete value domain (plus out-of-range neighbours up to the argument type's maximum) of VlanId, VlanPcp, IpDscp, IpEcn, IpFragOffset, MacsecAn, MacsecShortLen, Qrv (Ipv6FlowLabel: boundaries + stride, complete in the thorough tier) through try_new/try_from: accepted exactly when the value fits, error carries value and maximum. (2) Wire.tla: every value of every bit field (VLAN id all 4096, PCP, DEI, DSCP, ECN, flags, fragment offset, flow label parts, MACsec AN/SL/flags, TCP flags, data offset) against all-zero and all-ones neighbours must serialise to exactly the specification's bytes, so no field can alter a bit it does not own; decoding returns the value (in range by construction of the extractors, also checked on arbitrary bytes by the C03 field comparison).",
+   note=WIRE_NOTE)
 PENDING = {
 }
 NA = []
